@@ -202,10 +202,23 @@ func c19BFS(c *core.Ctx, r *core.Result, cfgName string, forks []c19Fork, maxH u
 							r.Sample(map[string]interface{}{"forks": cfgName, "history": st.hist, "starting_build": v, "refused": got, "model_says_refuse": want})
 						}
 						if err != nil {
-							os.RemoveAll(dir)
-							continue // the session never runs
+							if blocks == 0 || !want {
+								os.RemoveAll(dir)
+								continue // the session never runs
+							}
+							// the operator overrides the refusal (--no-hf) and the inadequate build syncs anyway: later start-ups of
+							// adequate builds must still refuse what it leaves behind
+							drive.DisableHardForkCheck = true
+							d, err = drive.Open(dir+"/db", fake.NewNode(chain), nil, false)
+							drive.DisableHardForkCheck = false
+							if err != nil {
+								os.RemoveAll(dir)
+								continue
+							}
+							ns.hist += "!forced"
+							r.Count("forced-sessions", 1)
 						}
-						if want {
+						if want && !strings.HasSuffix(ns.hist, "!forced") {
 							// accepted although it must be refused: reported; do not explore further from a state the property excludes
 							d.Close()
 							os.RemoveAll(dir)
